@@ -956,7 +956,12 @@ fn sc_c18(seed: u64, thorough: bool) -> Vec<Scenario> {
 pub fn scenarios(prop: &str, tier: &str, seed: u64) -> Vec<Scenario> {
     let thorough = tier == "thorough";
     match prop {
-        "C01" => sc_c01(seed, thorough),
+        "C01" => {
+            let mut v = sc_c01(seed, thorough);
+            // connections with cookie 0xffffffff / 0 (debug build: cookie arithmetic must not trap)
+            v.extend(sc_flags(seed, false).into_iter().filter(|s| s.name == "edge-cookies"));
+            v
+        }
         "C06" | "C07" | "C09" => sc_flags(seed, thorough),
         "C03" => {
             let mut v = sc_flags(seed, false);
